@@ -51,6 +51,7 @@ type RunOpts struct {
 	Workers int
 	Timeout time.Duration
 	HeapMB  int
+	Live    bool // check the termination property under fairness (concurrent programs)
 }
 
 // Run writes batch.json into dir (which must already contain the gooselang + common specs) and runs TLC.
@@ -77,9 +78,12 @@ func Run(dir string, l *v2tla.Lowerer, o RunOpts) ([]Outcome, tlc.Result, error)
 	if err := os.WriteFile(filepath.Join(dir, "batch.json"), b, 0644); err != nil {
 		return nil, tlc.Result{}, err
 	}
-	mc := "---- MODULE GLRunMC ----\nEXTENDS GLRun\nArbSet == {<<0,0,0,0,0,0,0,0>>, <<1,0,0,0,0,0,0,0>>, <<255,255,255,255,255,255,255,255>>}\n====\n"
+	mc := "---- MODULE GLRunMC ----\nEXTENDS GLRun\nArbSet == {<<0,0,0,0,0,0,0,0>>, <<1,0,0,0,0,0,0,0>>, <<255,255,255,255,255,255,255,255>>}\nTidSet == {<<>>, <<1>>, <<2>>, <<3>>, <<4>>, <<1, 1>>, <<2, 1>>}\n====\n"
 	_ = os.WriteFile(filepath.Join(dir, "GLRunMC.tla"), []byte(mc), 0644)
-	cfg := fmt.Sprintf("CONSTANTS\n Mode = \"%s\"\n Fuel = %d\n ArbChoices <- ArbSet\nINIT Init\nNEXT Next\nINVARIANT Emit\nCHECK_DEADLOCK FALSE\n", o.Mode, o.Fuel)
+	cfg := fmt.Sprintf("CONSTANTS\n Mode = \"%s\"\n Fuel = %d\n ArbChoices <- ArbSet\n TIDs <- TidSet\nINIT Init\nNEXT Next\nINVARIANT Emit\nCHECK_DEADLOCK FALSE\n", o.Mode, o.Fuel)
+	if o.Live {
+		cfg = fmt.Sprintf("CONSTANTS\n Mode = \"%s\"\n Fuel = %d\n ArbChoices <- ArbSet\n TIDs <- TidSet\nSPECIFICATION LiveSpec\nINVARIANT Emit\nPROPERTY Terminates\nCHECK_DEADLOCK FALSE\n", o.Mode, o.Fuel)
+	}
 	_ = os.WriteFile(filepath.Join(dir, "GLRunMC.cfg"), []byte(cfg), 0644)
 	r := tlc.Run{Dir: dir, Module: "GLRunMC", Workers: o.Workers, Timeout: o.Timeout, HeapMB: o.HeapMB, StackMB: 512}.Do()
 	var outs []Outcome
